@@ -10,8 +10,10 @@ satisfy the invariant follows from C01 for `+ - ×`, and for `exp` itself from C
 is the operator whose invariant is open in C01).  Results depending on it are named `_partial`.
 -/
 import TFV.Lemmas.PanicFree
+import TFV.Properties.C14p
 
 set_option exponentiation.threshold 3000
+set_option maxRecDepth 100000
 
 namespace C15p
 open F64 TwoFloat
@@ -67,7 +69,228 @@ theorem Float_ln_pf_partial (HR : PF.ExpHalfRecipInv) (x : TwoFloat) (hi : x.Inv
 example : TwoFloat.ln.pf ⟨f64lit 0x4024000000000000, f64lit 0x0000000000000000⟩ = true := by decide +kernel
 example : TwoFloat.ln_1p.pf ⟨f64lit 0x3fe0000000000000, f64lit 0x0000000000000000⟩ = true := by decide +kernel
 
-/-! ### `log2(2^k) = k` exactly (both words)
+
+/-! ### `log2(2^k) = k` for EVERY normal power of two, by proof (exact values; zero signs not tracked)
+
+`libm::log2` returns exactly `k` on `2^k` (the reduced argument is `1.0`, every correction term is `+0`), the Newton
+correction `(self·exp2(-x) - 1)/ln 2` is exactly zero by `C14p.exp2_int_value_gen`, so both iterations return `x`. -/
+
+/-- bit pattern of the normal double `2^(s-1022)`, `s ≥ 0`: exponent field `s + 1`, zero mantissa -/
+theorem to_bits_pow2 (s : Nat) : (fin false (2 ^ 52 * 2 ^ s)).to_bits_nat = (s + 1) * 2 ^ 52 := by
+  rw [F64.Bits.to_bits_nat_normal false (le_refl _) (by decide)]
+  simp
+
+theorem reduce_pow2 (e : Nat) :
+    Libm.reduce (e * 2 ^ 52) = ((e : Int) - 1023, f64lit 0x3ff0000000000000) := by
+  unfold Libm.reduce
+  simp only [Nat.reducePow, Nat.reduceSub]
+  have h52 : e * 4503599627370496 = e * 1048576 * 4294967296 := by rw [Nat.mul_assoc]
+  have a1 : e * 4503599627370496 / 4294967296 = e * 1048576 := by
+    rw [h52]; exact Nat.mul_div_cancel _ (by decide)
+  have a2 : (e * 1048576 + 614242) / 1048576 = e := by
+    rw [Nat.add_comm, Nat.add_mul_div_right _ _ (by decide)]; simp
+  have a3 : (e * 1048576 + 614242) % 1048576 = 614242 := by
+    rw [Nat.add_comm, Nat.add_mul_mod_self_right]
+  have a4 : e * 4503599627370496 % 4294967296 = 0 := by
+    rw [h52]; exact Nat.mul_mod_left _ _
+  simp only [a1, a2, a3, a4]
+  rfl
+
+
+/-- the part of `libm::log2` that depends only on the reduced argument `x ∈ [√2/2, √2]` -/
+def lg2parts (x : F64) : F64 × F64 :=
+  let f := F64.sub x Libm.c1
+  let (hfsq, s, r) := Libm.kernel f
+  let hi0 := F64.sub f hfsq
+  let hi := F64.from_bits_nat (hi0.to_bits_nat / 2^32 * 2^32)
+  let lo := F64.add (F64.sub (F64.sub f hi) hfsq) (F64.mul s (F64.add hfsq r))
+  let val_hi := F64.mul hi Libm.IVLN2HI
+  let val_lo := F64.add (F64.mul (F64.add lo hi) Libm.IVLN2LO) (F64.mul lo Libm.IVLN2HI)
+  (val_hi, val_lo)
+
+theorem log2_go_eq (k0 : Int) (ui : Nat) :
+    Libm.log2.go k0 ui =
+      (let y := F64.ofInt (k0 + (Libm.reduce ui).1)
+       let w := F64.add y (lg2parts (Libm.reduce ui).2).1
+       F64.add (F64.add (lg2parts (Libm.reduce ui).2).2 (F64.add (F64.sub y w) (lg2parts (Libm.reduce ui).2).1)) w) := rfl
+
+theorem lg2parts_one : lg2parts (f64lit 0x3ff0000000000000) = (fin false 0, fin false 0) := by decide +kernel
+
+/-- `libm::log2(2^k) = k` exactly (value), for the normal powers of two other than 1 -/
+theorem libm_log2_pow2 (s : Nat) (h2 : s ≤ 2045) :
+    IsVal (Libm.log2 (fin false (2 ^ 52 * 2 ^ s))) (((s : Int) - 1022) * (F64.unit : Int)) := by
+  unfold Libm.log2
+  dsimp only
+  rw [to_bits_pow2 s]
+  simp only [Nat.reducePow]
+  have h52 : (s + 1) * 4503599627370496 = (s + 1) * 1048576 * 4294967296 := by rw [Nat.mul_assoc]
+  have a1 : (s + 1) * 4503599627370496 / 4294967296 = (s + 1) * 1048576 := by
+    rw [h52]; exact Nat.mul_div_cancel _ (by decide)
+  have a4 : (s + 1) * 4503599627370496 % 4294967296 = 0 := by
+    rw [h52]; exact Nat.mul_mod_left _ _
+  rw [a1, a4]
+  have n1 : ¬ ((s + 1) * 1048576 < 1048576 ∨ (s + 1) * 1048576 / 2147483648 > 0) := by omega
+  have n2 : ¬ ((s + 1) * 1048576 ≥ 2146435072) := by omega
+  rw [if_neg n1, if_neg n2]
+  by_cases hs : s = 1022
+  · subst hs
+    rw [if_pos ⟨by decide, rfl⟩]
+    exact ⟨rfl, by decide +kernel⟩
+  · rw [if_neg (by omega)]
+    have hr := reduce_pow2 (s + 1)
+    simp only [Nat.reducePow] at hr
+    rw [log2_go_eq, hr, lg2parts_one]
+    dsimp only
+    have hk : (0 : Int) + (((s + 1 : Nat) : Int) - 1023) = (s : Int) - 1022 := by push_cast; ring
+    rw [hk]
+    obtain ⟨eK, hKi, hKw⟩ := F64.ofInt_exact_of_lt ((s : Int) - 1022) (by omega)
+    have hKf : (F64.ofInt ((s : Int) - 1022)).is_finite = true := by rw [eK]; rfl
+    generalize F64.ofInt ((s : Int) - 1022) = y at hKi hKw hKf ⊢
+    have hy : IsVal y (((s : Int) - 1022) * (F64.unit : Int)) := ⟨hKf, hKi⟩
+    generalize ((s : Int) - 1022) * (F64.unit : Int) = v at hy ⊢
+    have hz : IsVal (fin false 0) 0 := IsVal.zero false
+    have hvr : RepI v := hy.repI hKw
+    have hvm : |v| ≤ (maxFin : Int) := hy.abs_le hKw
+    have hw : IsVal (F64.add y (fin false 0)) v := by
+      have := hy.add_exact hz (by rw [add_zero]; exact hvr) (by rw [add_zero]; exact hvm)
+      rwa [add_zero] at this
+    have hd : IsVal (F64.sub y (F64.add y (fin false 0))) 0 := by
+      have := hy.sub_exact hw (by rw [sub_self]; exact repI_zero) (by rw [sub_self]; exact abs_zero_le_maxFin)
+      rwa [sub_self] at this
+    have h3 : IsVal (F64.add (F64.sub y (F64.add y (fin false 0))) (fin false 0)) 0 := by
+      have := hd.add_exact hz (by rw [add_zero]; exact repI_zero) (by rw [add_zero]; exact abs_zero_le_maxFin)
+      rwa [add_zero] at this
+    have h4 : IsVal (F64.add (fin false 0) (F64.add (F64.sub y (F64.add y (fin false 0))) (fin false 0))) 0 := by
+      have := hz.add_exact h3 (by rw [add_zero]; exact repI_zero) (by rw [add_zero]; exact abs_zero_le_maxFin)
+      rwa [add_zero] at this
+    have := h4.add_exact hw (by rw [zero_add]; exact hvr) (by rw [zero_add]; exact hvm)
+    rwa [zero_add] at this
+
+open C14p in
+/-- one Newton step of `log2` at an exact power of two: `x + (self·exp2(-x) - 1)·(1/ln 2) = x` -/
+theorem log2_step_pow2 (self x : TwoFloat) (s : Nat) (hs : s ≤ 2045)
+    (hself : IsP self ((2 ^ (s + 52) : Nat) : Int) 0)
+    (hx : IsP x (((s : Int) - 1022) * (F64.unit : Int)) 0) :
+    IsP (arithmetic.impl_Add_TwoFloat_for_TwoFloat.add x
+      (arithmetic.impl_Mul_TwoFloat_for_TwoFloat.mul
+        (arithmetic.impl_Sub_f64_for_TwoFloat.sub
+          (arithmetic.impl_Mul_TwoFloat_for_TwoFloat.mul self
+            (TwoFloat.exp2 (arithmetic.impl_Neg_for_TwoFloat.neg x)))
+          (f64lit 0x3ff0000000000000))
+        explog.FRAC_1_LN_2)) (((s : Int) - 1022) * (F64.unit : Int)) 0 := by
+  obtain ⟨x1, x2, xv, xw⟩ := hx
+  -- -x
+  have hnx : IsP (arithmetic.impl_Neg_for_TwoFloat.neg x) ((-((s : Int) - 1022)) * (F64.unit : Int)) 0 := by
+    refine ⟨?_, ?_, xv.neg xw.1, TwoFloat.neg_WF' xw⟩
+    · show (F64.neg x.hi).toInt = _; rw [toInt_neg, x1]; ring
+    · show (F64.neg x.lo).toInt = _; rw [toInt_neg, x2]; ring
+  -- exp2(-x) = 2^-k
+  have he := exp2_int_value_gen _ _ hnx (by omega) (by omega)
+  have hexp : (-((s : Int) - 1022) + 1074).toNat = 2096 - s := by omega
+  rw [hexp] at he
+  generalize TwoFloat.exp2 (arithmetic.impl_Neg_for_TwoFloat.neg x) = e at he
+  -- self * e = 1
+  have hm : IsP (arithmetic.impl_Mul_TwoFloat_for_TwoFloat.mul self e) (F64.unit : Int) 0 := by
+    have hH : (((2 ^ (s + 52) : Nat) : Int)) * ((2 ^ (2096 - s) : Nat) : Int) = (F64.unit : Int) * (F64.unit : Int) := by
+      have hN : 2 ^ (s + 52) * 2 ^ (2096 - s) = F64.unit * F64.unit := by
+        rw [F64.unit_eq, ← Nat.pow_add, ← Nat.pow_add]; congr 1; omega
+      exact_mod_cast hN
+    have hc : NormPair (F64.unit : Int) 0 :=
+      ⟨repI_unit, abs_unit_le_maxFin, repI_zero, abs_zero_le_maxFin, by rw [add_zero, rnI_of_repI repI_unit]⟩
+    have h := mul_tt_isV_right_fixed (x := self) (y := e) ⟨⟨hself.2.2.1.1, hself.1⟩, ⟨hself.2.2.1.2.1, hself.2.1⟩⟩
+      ⟨⟨he.2.2.1.1, he.1⟩, ⟨he.2.2.1.2.1, he.2.1⟩⟩ hH (by rw [zero_mul, zero_mul]) hc
+    have hp := h.package (mul_tt_WF self e) hc.2.2.2.2
+    exact ⟨hp.1, hp.2.1, hp.2.2.2.1, hp.2.2.2.2⟩
+  generalize arithmetic.impl_Mul_TwoFloat_for_TwoFloat.mul self e = m at hm
+  -- m - 1 = 0
+  have hone : IsVal (f64lit 0x3ff0000000000000) (F64.unit : Int) := ⟨by decide +kernel, c0_words.1⟩
+  have hd : IsP (arithmetic.impl_Sub_f64_for_TwoFloat.sub m (f64lit 0x3ff0000000000000)) 0 0 := by
+    have hS : m.hi.toInt - (F64.unit : Int) = 0 := by rw [hm.1]; ring
+    have e0 : m.hi.toInt - (F64.unit : Int) + m.lo.toInt = 0 := by rw [hS, hm.2.1]; ring
+    have := sub_tf_isV (IsV.of_valid hm.2.2.1) hone hm.2.2.2 PF.lit_one_WF
+      (by rw [hS]; exact repI_zero) (by rw [hS]; exact abs_zero_le_maxFin)
+      (by rw [e0, rnI_zero]; exact abs_zero_le_maxFin)
+      (by rw [e0, rnI_zero, hS, sub_zero]; exact repI_zero)
+      (by rw [e0, rnI_zero, hS, sub_zero]; exact abs_zero_le_maxFin)
+    rw [e0, rnI_zero, sub_zero] at this
+    have hp := this.package (sub_tf_WF m _) (by rw [add_zero, rnI_zero])
+    exact ⟨hp.1, hp.2.1, hp.2.2.2.1, hp.2.2.2.2⟩
+  -- times 1/ln 2: still 0; x + 0 = x
+  obtain ⟨-, -, t3, t4, -⟩ := C04x.mul_tt_zero_left _ explog.FRAC_1_LN_2 hd.2.2.1 (by rw [hd.V]; ring)
+    (by decide +kernel) (by decide +kernel)
+  obtain ⟨a1, a2, -, a4, a5⟩ := C03x.add_tt_zero_right x _ xv xw t4 t3
+  exact ⟨a1.trans x1, a2.trans x2, a4, a5⟩
+
+
+open C14p in
+/-- **`log2(2^k) = k` for EVERY normal power of two** (`-1022 ≤ k ≤ 1023`, written `k = s - 1022`), at the level
+of exact values: the result is a valid pair with high word `k` and a zero low word -/
+theorem log2_pow2_value (s : Nat) (hs : s ≤ 2045) :
+    IsP (TwoFloat.log2 ⟨fin false (2 ^ 52 * 2 ^ s), fin false 0⟩) (((s : Int) - 1022) * (F64.unit : Int)) 0 := by
+  have hPw : (fin false (2 ^ 52 * 2 ^ s)).WF := by
+    refine ⟨rep_mul_pow2 s (rep_two_pow 52), ?_⟩
+    rw [← Nat.pow_add]
+    exact le_trans (Nat.pow_le_pow_right (by decide) (by omega : 52 + s ≤ 2097)) two_pow_2097_le_maxFin
+  have hPv : (fin false (2 ^ 52 * 2 ^ s)).toInt = ((2 ^ (s + 52) : Nat) : Int) := by
+    show ((2 ^ 52 * 2 ^ s : Nat) : Int) = _
+    rw [← Nat.pow_add, Nat.add_comm]
+  have hself : IsP (⟨fin false (2 ^ 52 * 2 ^ s), fin false 0⟩ : TwoFloat) ((2 ^ (s + 52) : Nat) : Int) 0 :=
+    ⟨hPv, toInt_zero false, (pair_zero_spec rfl hPw).2.1, hPw, WF_zero false⟩
+  generalize hx : (⟨fin false (2 ^ 52 * 2 ^ s), fin false 0⟩ : TwoFloat) = self at hself ⊢
+  have hhi : self.hi = fin false (2 ^ 52 * 2 ^ s) := by rw [← hx]
+  have hlo : self.lo = fin false 0 := by rw [← hx]
+  have hone : IsVal (f64lit 0x3ff0000000000000) (F64.unit : Int) := ⟨by decide +kernel, c0_words.1⟩
+  have hUpos : 0 < F64.unit := F64.unit_pos
+  unfold TwoFloat.log2
+  by_cases hs0 : s = 1022
+  · -- self = 1: the shortcut
+    have he : base.impl_PartialEq_f64_for_TwoFloat.eq self (f64lit 0x3ff0000000000000) = true := by
+      unfold base.impl_PartialEq_f64_for_TwoFloat.eq
+      rw [hlo, hhi, hs0]; decide +kernel
+    rw [he, if_pos rfl, hs0]
+    have : (((1022 : Nat) : Int) - 1022) * (F64.unit : Int) = 0 := by push_cast; ring
+    rw [this]
+    exact ⟨by decide +kernel, by decide +kernel, by decide +kernel, by decide +kernel⟩
+  · have he : base.impl_PartialEq_f64_for_TwoFloat.eq self (f64lit 0x3ff0000000000000) = false := by
+      unfold base.impl_PartialEq_f64_for_TwoFloat.eq
+      rw [Bool.and_eq_false_iff]; left
+      rw [req_eq, Bool.eq_false_iff]
+      intro hc
+      have := (eq_iff_toInt hself.2.2.1.1 hone.1).1 hc
+      rw [hself.1, hone.2, F64.unit_eq] at this
+      have h2 : 2 ^ (s + 52) = 2 ^ 1074 := by exact_mod_cast this
+      have := Nat.pow_right_injective (le_refl 2) h2
+      omega
+    have hle : ROrd.isLe (base.impl_PartialOrd_f64_for_TwoFloat.partial_cmp self (f64lit 0x0000000000000000)) = false := by
+      rw [f64lit_zero, partial_cmp_tf_exact_of F64.roundFacts hself.2.2.1 (WF_zero false) rfl, Bool.eq_false_iff]
+      intro hc
+      have := ROrd.isLe_ofInts.1 hc
+      rw [hself.V, toInt_zero, add_zero] at this
+      have hp : 0 < 2 ^ (s + 52) := Nat.two_pow_pos _
+      have : ((2 ^ (s + 52) : Nat) : Int) ≤ 0 := this
+      omega
+    rw [he, hle, if_neg Bool.false_ne_true, if_neg Bool.false_ne_true]
+    -- the seed
+    have hL := libm_log2_pow2 s hs
+    have hLw : (Libm.log2 self.hi).WF := PF.libm_log2_WF hself.2.2.2.1
+    rw [← hhi] at hL
+    have hx0 : IsP (convert.impl_From_f64_for_TwoFloat.from (Libm.log2 self.hi))
+        (((s : Int) - 1022) * (F64.unit : Int)) 0 := by
+      rw [from_eq]
+      exact ⟨hL.2, toInt_zero false, (pair_zero_spec hL.1 hLw).2.1, hLw, WF_zero false⟩
+    exact log2_step_pow2 self _ s hs hself (log2_step_pow2 self _ s hs hself hx0)
+
+
+/-- the same, indexed by the exponent `k` -/
+theorem log2_pow2_value' (k : Int) (h1 : -1022 ≤ k) (h2 : k ≤ 1023) :
+    C14p.IsP (TwoFloat.log2 ⟨fin false (2 ^ (k + 1074).toNat), fin false 0⟩) (k * (F64.unit : Int)) 0 := by
+  obtain ⟨s, hs⟩ : ∃ s : Nat, k + 1022 = (s : Int) := ⟨(k + 1022).toNat, by omega⟩
+  have e1 : (k + 1074).toNat = 52 + s := by omega
+  have e2 : k = (s : Int) - 1022 := by omega
+  rw [e1, Nat.pow_add, e2]
+  exact log2_pow2_value s (by omega)
+
+/-! ### `log2(2^k) = (k, +0)` bit for bit (including the sign of the zero), by kernel evaluation
 
 One instance is one kernel evaluation of `libm::log2` and of two complete `exp2` (≈ 7–11 s); the range
 `-1000 ≤ k ≤ 960` is checked on the DOCUMENTED SUBSET `k ∈ {-1000, -512, -1, 1, 10, 512, 960}` (`k = 0` is the
